@@ -318,6 +318,9 @@ def gen_c08_case(rng: random.Random) -> Dict[str, Any]:
         if default and ann == "none" and rng.random() < 0.4:
             # a default says nothing about the type of what callers send
             params[-1]["default_val"] = rng.choice([3, 2.5, False, 0])
+        elif default and ann in ("int", "float", "bool") and rng.random() < 0.5:
+            # an annotated parameter with a default of its type
+            params[-1]["default_val"] = {"int": rng.choice([0, 3, 1]), "float": rng.choice([1.0, 0.0, 3.0, 0.5]), "bool": rng.choice([True, False])}[ann]
         pi += 1
     # supplied arguments
     positional_ok = []
@@ -342,6 +345,12 @@ def gen_c08_case(rng: random.Random) -> Dict[str, Any]:
         positional = pos_idx is not None and pos_idx < npos
         if positional or not p["default"] or rng.random() < 0.7:
             supplied[p["name"]] = {"v": gen_value_for(rng, p["ann"]), "pos": positional}
+            dv = p.get("default_val")
+            if dv is not None and p.get("ann") in ("int", "float", "bool") and rng.random() < 0.5:
+                # the caller sends a value that compares equal to the default but is of another type (0.0 for 0, 1 for
+                # 1.0 or True): it is a sent value like any other
+                alt = {"int": float(dv), "float": int(dv) if float(dv).is_integer() else dv, "bool": int(dv)}[p["ann"]]
+                supplied[p["name"]]["v"] = enc(alt)
     variadic: Dict[str, Any] = {}
     if rng.random() < 0.2:
         simple = ["none", "none", "int", "float", "str", "Any", "Model", "List[int]"]
@@ -369,6 +378,7 @@ def gen_c08_case(rng: random.Random) -> Dict[str, Any]:
         "wrapped": rng.random() < 0.12,
         # typed labels on the send (the message carries their text form plus a type table)
         "labels": rng.choice([None, None, None, {"priority": 5}, {"ratio": 0.5, "urgent": True}, {"n": 0, "tag": "x", "flag": False}]),
+        "via_inmem": rng.choice([None, None, None, None, None, None, "startup", "plain"]),
     }
 
 
@@ -477,10 +487,16 @@ _EXEC = ThreadPoolExecutor(2)
 def run_c08(case: Dict[str, Any]) -> "tuple[List[Violation], Dict[str, Any]]":
     v: List[Violation] = []
     fn, src = build_fn(case)
-    broker = PlainBroker()
+    broker: Any = PlainBroker()
+    if case.get("via_inmem"):
+        # the bundled in-memory broker with its own receiver (cast_types is its name for parsing on/off), started the
+        # way applications start brokers
+        from taskiq import InMemoryBroker
+
+        broker = InMemoryBroker(cast_types=case["validate"])
     set_format(broker, case["fmt"])
     early_receiver = None
-    if case.get("late_register"):
+    if case.get("late_register") and not case.get("via_inmem"):
         # the receiver exists before the task is registered (dynamic registration / InMemoryBroker)
         early_receiver = Receiver(broker, executor=_EXEC, validate_params=case["validate"], max_async_tasks=1, run_startup=False)
     shadow_registered = False
@@ -496,6 +512,8 @@ def run_c08(case: Dict[str, Any]) -> "tuple[List[Violation], Dict[str, Any]]":
     try:
         return _run_c08_inner(case, fn, src, broker, early_receiver, v)
     finally:
+        if case.get("via_inmem"):
+            broker.executor.shutdown(wait=False)
         if shadow_registered:
             from taskiq.abc.broker import AsyncBroker as _AB
 
@@ -538,7 +556,9 @@ def _run_c08_inner(case: Dict[str, Any], fn: Any, src: str, broker: Any, early_r
     want_kwargs = {k: wire(prepared(x), case["fmt"]) for k, x in kwargs.items()}
     if not strict_eq(back.args, want_args) or not strict_eq(back.kwargs, want_kwargs):
         v.append(Violation("wire-content", f"decoded args/kwargs {back.args!r} {back.kwargs!r} != sent {want_args!r} {want_kwargs!r}"))
-    receiver = early_receiver or Receiver(broker, executor=_EXEC, validate_params=case["validate"], max_async_tasks=1, run_startup=False)
+    receiver: Any = None
+    if not case.get("via_inmem"):
+        receiver = early_receiver or Receiver(broker, executor=_EXEC, validate_params=case["validate"], max_async_tasks=1, run_startup=False)
     del _REC[:]
     prior = None
     if case.get("prior_inconvertible"):
@@ -547,10 +567,17 @@ def _run_c08_inner(case: Dict[str, Any], fn: Any, src: str, broker: Any, early_r
         prior = broker.formatter.dumps(task.kicker()._prepare_message(**pk)).message
 
     async def main(loop: Any) -> None:
+        nonlocal receiver
+        if case.get("via_inmem"):
+            if case["via_inmem"] == "startup":
+                await broker.startup()
+            receiver = broker.receiver  # whatever receiver the broker holds now
         if prior is not None:
             await receiver.callback(prior)
             del _REC[:]
         await receiver.callback(bm.message)
+        if case.get("via_inmem") == "startup":
+            await broker.shutdown()
 
     try:
         run_virtual(main)
